@@ -340,7 +340,16 @@ def r2(ctx):
                 ok = False
     ok = ok and bool(built)
     for st in starts:
-        for x in roots(st[2][0][1]):
+        rs = set(roots(st[2][0][1]))
+        # `BucketIndex::new(&distance).unwrap_or(BucketIndex(0))` is the match written in one line
+        for x in list(rs):
+            if x[0] == "call" and re.search(r"Option::unwrap_or$", short(x[1])) and len(x[2]) == 2:
+                rs.discard(x)
+                rs |= {("call", "BucketIndex::new(distance)-payload", x[2][0])} if fmt_short(x[2][0]).startswith("BucketIndex::new(distance)") else {x}
+                rs |= set(roots(x[2][1]))
+        for x in rs:
+            if x[0] == "call" and x[1] == "BucketIndex::new(distance)-payload":
+                continue
             s_ = fmt_short(x)
             if not (s_.startswith("BucketIndex::new(distance)") or (x[0] == "agg" and const_int_of(x[2][0][1]) == 0)):
                 ok = False
